@@ -28,12 +28,15 @@ PROPS = ("C01",)
 
 
 @st.composite
-def cases(draw, op="read", invalid=False, many=False, size_bias=None):
-    pd = draw(G.projects(size_bias=size_bias))
+def cases(draw, op="read", invalid=False, many=False, size_bias=None, packing=False):
+    """packing: many requests for small tags with long names (the request, not the reply, fills the packet)"""
+    pd = draw(G.projects(size_bias=size_bias)) if not packing else draw(G.projects(size_bias=["scalar"], max_tags=6, long_names=True))
     p = Project(pd)
     seeds = draw(G.memory_seeds(pd))
     cfg = draw(G.target_cfgs())
-    if op == "read":
+    if packing:
+        reqs = draw(Q.read_requests(p, min_size=20, max_size=130)) if op == "read" else draw(Q.write_requests(p, min_size=15, max_size=100))
+    elif op == "read":
         reqs = draw(Q.read_requests(p, max_size=40 if many else 12))
     else:
         reqs = draw(Q.write_requests(p, max_size=30 if many else 8))
@@ -90,11 +93,11 @@ def check_case(case):
 def plan(tier):
     n = 16 if tier == "quick" else 64
     per = 190 if tier == "quick" else 2400
-    return [{"part": "read", "examples": per} for _ in range(n)]
+    return [{"part": "read", "examples": per} for _ in range(n)] + [{"part": "read", "packing": True, "examples": per // 6} for _ in range(4)]
 
 
 def run_job(ctx, job):
-    hyp_search(ctx, "case", cases("read"), check_case, job["examples"], sample_of=sample_of)
+    hyp_search(ctx, "case", cases("read", packing=job.get("packing", False)), check_case, job["examples"], sample_of=sample_of)
 
 
 def replay(ctx, kind, case):
